@@ -2,6 +2,7 @@
 mod common;
 mod c20;
 mod c07;
+mod c03;
 mod c01;
 mod c15;
 mod interp;
@@ -39,6 +40,7 @@ fn main() {
   let (generate, exec): (fn(u64, bool, &mut Sink) -> Vec<String>, fn(&str) -> String) = match prop {
     "C20" => (c20::generate, c20::exec),
     "C07" => (c07::generate, c07::exec),
+    "C03" => (c03::generate, c03::exec),
     "C01" => (c01::generate, c01::exec),
     "C15" => (c15::generate, c15::exec),
     _ => { eprintln!("unknown property {}", prop); std::process::exit(2); }
